@@ -305,14 +305,14 @@ Definition obj_roundtrip_hist (path : list N) (w : walk) (kind : N) (gone : list
    staged again into the same odb and checked out.  Staging in the model is cache-free: it hashes the
    bytes that are there now; that a hash-state cache changes nothing is what the correspondence with
    runs WITH a State checks (the cache's own soundness is C13's theorem). *)
-Definition restage_val (path : list N) (w1 w2 : walk) (gone : list (list N)) : val :=
+Definition restage2_val (path path2 : list N) (w1 w2 : walk) (gone : list (list N)) : val :=
   match stage md5_hex path w1 with
   | Err c => VL [VN 0; VN c]
   | Ok sg1 =>
       (* objects deleted from the store between the two builds; the staging references of the first
          build are gone with it: every build references the paths it hashed itself *)
       let s0 := filter (fun ob => negb (existsb (list_N_eqb (fst ob)) gone)) (sg_store sg1) in
-      match stage_from md5_hex s0 path w2 with
+      match stage_from md5_hex s0 path2 w2 with
       | Err c => VL [VN 0; VN c]
       | Ok sg =>
           VL [VN 1; VB (sg_oid sg1); VB (sg_oid sg); VN (sg_nfiles sg); VN (sg_size sg);
@@ -321,6 +321,9 @@ Definition restage_val (path : list N) (w1 w2 : walk) (gone : list (list N)) : v
                       (checkout (sg_store sg) (sg_oid sg))]
       end
   end.
+
+Definition restage_val (path : list N) (w1 w2 : walk) (gone : list (list N)) : val :=
+  restage2_val path path w1 w2 gone.
 
 (* checkout of a store from which some objects were removed (malformed stream) *)
 Definition checkout_without (path : list N) (w : walk) (gone : list (list N)) : val :=
